@@ -24,7 +24,8 @@ type c10Shape struct {
 	name   string
 	c, s   []security.AuthMethod
 	noTok  bool
-	mutual bool // a mutually usable, implemented method exists
+	mutual bool   // a mutually usable, implemented method exists
+	legacy string // != "": both sides list a legacy cipher next to AES ("3des-first", "blowfish-first", "crossed")
 }
 
 var (
@@ -34,23 +35,23 @@ var (
 )
 
 var c10Shapes = []c10Shape{
-	{"ctb-only", []security.AuthMethod{mCTB}, []security.AuthMethod{mCTB}, false, true},
-	{"same-order", []security.AuthMethod{mCTB, mTOK}, []security.AuthMethod{mCTB, mTOK}, false, true},
-	{"reversed", []security.AuthMethod{mCTB, mTOK}, []security.AuthMethod{mTOK, mCTB}, false, true},
-	{"disjoint", []security.AuthMethod{mCTB}, []security.AuthMethod{mTOK}, false, false},
-	{"client-empty", nil, []security.AuthMethod{mCTB}, false, false},
-	{"server-empty", []security.AuthMethod{mCTB}, nil, false, false},
-	{"unimpl-first", []security.AuthMethod{mPWD, mCTB}, []security.AuthMethod{mPWD, mCTB}, false, true},
-	{"unimpl-only", []security.AuthMethod{mPWD}, []security.AuthMethod{mPWD}, false, false},
-	{"token-only", []security.AuthMethod{mTOK}, []security.AuthMethod{mTOK}, false, true},
-	{"token-no-token", []security.AuthMethod{mTOK}, []security.AuthMethod{mTOK}, true, false},
-	{"ssl-only", []security.AuthMethod{security.AuthSSL}, []security.AuthMethod{security.AuthSSL}, false, true},
-	{"ssl-then-ctb", []security.AuthMethod{security.AuthSSL, mCTB}, []security.AuthMethod{security.AuthSSL, mCTB}, false, true},
+	{"ctb-only", []security.AuthMethod{mCTB}, []security.AuthMethod{mCTB}, false, true, ""},
+	{"same-order", []security.AuthMethod{mCTB, mTOK}, []security.AuthMethod{mCTB, mTOK}, false, true, ""},
+	{"reversed", []security.AuthMethod{mCTB, mTOK}, []security.AuthMethod{mTOK, mCTB}, false, true, ""},
+	{"disjoint", []security.AuthMethod{mCTB}, []security.AuthMethod{mTOK}, false, false, ""},
+	{"client-empty", nil, []security.AuthMethod{mCTB}, false, false, ""},
+	{"server-empty", []security.AuthMethod{mCTB}, nil, false, false, ""},
+	{"unimpl-first", []security.AuthMethod{mPWD, mCTB}, []security.AuthMethod{mPWD, mCTB}, false, true, ""},
+	{"unimpl-only", []security.AuthMethod{mPWD}, []security.AuthMethod{mPWD}, false, false, ""},
+	{"token-only", []security.AuthMethod{mTOK}, []security.AuthMethod{mTOK}, false, true, ""},
+	{"token-no-token", []security.AuthMethod{mTOK}, []security.AuthMethod{mTOK}, true, false, ""},
+	{"ssl-only", []security.AuthMethod{security.AuthSSL}, []security.AuthMethod{security.AuthSSL}, false, true, ""},
+	{"ssl-then-ctb", []security.AuthMethod{security.AuthSSL, mCTB}, []security.AuthMethod{security.AuthSSL, mCTB}, false, true, ""},
 	// entries that have no bit in the method mask (NONE, names cedar does not know) AHEAD of the usable method
-	{"server-none-first", []security.AuthMethod{mCTB}, []security.AuthMethod{security.AuthNone, mCTB}, false, true},
-	{"server-unknown-first", []security.AuthMethod{mCTB}, []security.AuthMethod{"MUNGE", mCTB}, false, true},
-	{"client-none-first", []security.AuthMethod{security.AuthNone, mCTB}, []security.AuthMethod{mCTB}, false, true},
-	{"both-unknown-first", []security.AuthMethod{"GSI", mCTB, mTOK}, []security.AuthMethod{"MUNGE", mTOK, mCTB}, false, true},
+	{"server-none-first", []security.AuthMethod{mCTB}, []security.AuthMethod{security.AuthNone, mCTB}, false, true, ""},
+	{"server-unknown-first", []security.AuthMethod{mCTB}, []security.AuthMethod{"MUNGE", mCTB}, false, true, ""},
+	{"client-none-first", []security.AuthMethod{security.AuthNone, mCTB}, []security.AuthMethod{mCTB}, false, true, ""},
+	{"both-unknown-first", []security.AuthMethod{"GSI", mCTB, mTOK}, []security.AuthMethod{"MUNGE", mTOK, mCTB}, false, true, ""},
 }
 
 func lv(l security.SecurityLevel) string { return string(l)[:3] }
@@ -69,6 +70,14 @@ func c10Run(res *vlib.Result, ca, sa, ce, se security.SecurityLevel, sh c10Shape
 	sc := []security.CryptoMethod{security.CryptoAES}
 	if !commonCipher {
 		sc = []security.CryptoMethod{security.CryptoBlowfish}
+	}
+	switch sh.legacy {
+	case "3des-first":
+		cc, sc = []security.CryptoMethod{security.Crypto3DES, security.CryptoAES}, []security.CryptoMethod{security.Crypto3DES, security.CryptoAES}
+	case "blowfish-first":
+		cc, sc = []security.CryptoMethod{security.CryptoBlowfish, security.CryptoAES}, []security.CryptoMethod{security.CryptoBlowfish, security.CryptoAES}
+	case "crossed":
+		cc, sc = []security.CryptoMethod{security.CryptoAES, security.Crypto3DES}, []security.CryptoMethod{security.Crypto3DES, security.CryptoAES}
 	}
 	ccfg := baseCfg(ca, ce, sh.c, cc, false)
 	scfg := baseCfg(sa, se, sh.s, sc, true)
@@ -98,7 +107,7 @@ func c10Run(res *vlib.Result, ca, sa, ce, se security.SecurityLevel, sh c10Shape
 		}
 	}
 	r := hsRun(hsOpts{ClientCfg: ccfg, ServerCfg: scfg, ServerCfgForCmd: hook, App: true})
-	id := fmt.Sprintf("auth=%s/%s enc=%s/%s methods=%s cipher=%v cmd=%v", lv(ca), lv(sa), lv(ce), lv(se), sh.name, commonCipher, withCmd)
+	id := fmt.Sprintf("auth=%s/%s enc=%s/%s methods=%s cipher=%v%s cmd=%v", lv(ca), lv(sa), lv(ce), lv(se), sh.name, commonCipher, sh.legacy, withCmd)
 	if second {
 		id += " (second connection; policy from one shared per-command object)"
 	}
@@ -311,6 +320,25 @@ func C10Plan() *vlib.Plan {
 			}
 			return res
 		}})
+		for _, lg := range []string{"3des-first", "blowfish-first", "crossed"} {
+			lg := lg
+			yield(vlib.Case{ID: "legacy-cipher/" + lg, Run: func() *vlib.Result {
+				res := &vlib.Result{}
+				sh := c10Shapes[0]
+				sh.legacy, sh.name = lg, sh.name+"+"+lg
+				for _, ca := range c10Levels {
+					for _, sa := range c10Levels {
+						for _, ce := range []security.SecurityLevel{security.SecurityOptional, security.SecurityPreferred} {
+							for _, se := range []security.SecurityLevel{security.SecurityOptional, security.SecurityPreferred} {
+								c10One(res, ca, sa, ce, se, sh, true, true)
+								c10One(res, ca, sa, ce, se, sh, true, false)
+							}
+						}
+					}
+				}
+				return res
+			}})
+		}
 		lists := [][]security.AuthMethod{{mCTB}, {mTOK}, {mTOK, mCTB}, {mCTB, mTOK}}
 		for _, cl := range lists[2:] {
 			cl := cl
